@@ -36,7 +36,8 @@ RULE = ('case = labelled reference matrix (clusters of one cell, unlabelled '
         'with CPM exactly 1) x ~4 (quick) / ~8 (thorough) partitions: entry '
         'point (label columns / tree with row indices / file list with cell '
         'names), 1-4 files, rows_at_a_time 1..n+1, 1-5 workers, raw or '
-        'normalised, dense / CSR / CSC; then every order-preserving proper '
+        'normalised, dense / CSR / CSC (one forced case: few cells x > 65 536 '
+        'genes in each encoding); then every order-preserving proper '
         'sub-hierarchy (truncation) and a merge of per-dataset files.  '
         'Non-trivial = >= 2 clusters with cells; distinct = distinct '
         '(shape, n clusters, normalisation, hierarchy depth) tuples')
